@@ -77,3 +77,45 @@ def calls_named(fn, *suffixes):
 
 def normal_blocks(fn):
     return [i for i, b in enumerate(fn.blocks) if not b["cleanup"]]
+
+
+def builder_chain(fn, op):
+    """[(method, const_arg or None)] applied to the OpenOptions value reaching `op`; None if it cannot be followed."""
+    e = df.operand_expr(fn, op)
+    chain = []
+    for _ in range(16):
+        if not (isinstance(e, tuple) and e and e[0] == "call"):
+            return None
+        path = e[1]
+        if not path.startswith("std::fs::OpenOptions::"):
+            return None
+        m = path.split("::")[-1]
+        if m == "new":
+            chain.reverse()
+            return chain
+        arg = e[2][1] if len(e[2]) > 1 else None
+        val = arg[1] if isinstance(arg, tuple) and arg[0] == "const" else None
+        chain.append((m, val))
+        e = e[2][0]
+    return None
+
+
+def open_chain_flags(fn, term):
+    """{method: [const args]} of the OpenOptions builder chain reaching an OpenOptions::open call; None if it cannot be followed."""
+    ch = builder_chain(fn, term["args"][0])
+    if ch is None:
+        return None
+    d = {}
+    for m, v in ch:
+        d.setdefault(m, []).append(v)
+    return d
+
+
+def is_log_open(fn, term):
+    """Does this OpenOptions::open call open the applied-patches log?  (append mode, or a path naming .pc/applied-patches)"""
+    from . import dataflow as df
+    d = open_chain_flags(fn, term)
+    if d is not None and d.get("append") == [1]:
+        return True
+    e = df.operand_expr(fn, term["args"][1])
+    return df.mentions_deep(fn, e, lambda x: df.is_const(x, ".pc/applied-patches"))
